@@ -142,7 +142,9 @@ Definition memcpy_over (dst src : list F) : list F := src ++ skipn (length src) 
 
 (* _vnacal_new_solve_internal, "store them into the corresponding parameter structures", step by step:
      free(gamma);  if (vpmr_frequencies != frequencies) { free; calloc(frequencies) }
-     memcpy(vpmr_frequency_vector, vn_frequency_vector, frequencies)      (unconditionally)
+     if (frequencies != 0) memcpy(vpmr_frequency_vector, vn_frequency_vector, frequencies)
+                                    (outside the reallocation branch; the guard is fix D68: a copy
+                                     of zero elements is the identity in the model)
      vpmr_gamma_vector = p_vector[index] *)
 Definition writeback (old : pobj) (fs : list F) (vs : list V) : pobj :=
   let fv := if Nat.eqb (length (pf old)) (length fs) then pf old else repeat f0 (length fs) in
